@@ -1198,6 +1198,10 @@ def eval_c12(ctx, case):
     if tra['locked'] and tra['locked'][-1]:
         ctx.count('first schedule ends locked')
     diff = hist_equal(tra, trb, exact=False)
+    if diff is None and case['kind'].startswith('split') and not tra['error'] and not trb['error'] and len(tra['time']) >= 3:
+        # the two histories read back the way users read them: a snapshot at the same physical instant, the exported files
+        from harness import meta_h
+        diff = meta_h.snapshots_differ(ctx, tra, ba, trb, bb) or meta_h.exports_differ(ctx, ba, bb)
     if diff is None:
         return
     if case['kind'].startswith('rerun'):
